@@ -862,4 +862,29 @@ theorem exports_not_private {g : List Scope} {k : Nat} {m : Scope} {l : Str} {e 
   · exact Or.inl ⟨d, hd, rfl⟩
   · exact Or.inr hp
 
+/-! ### the four tables returned together (`getUsedAll`) -/
+
+theorem getUsedAll_get (u : UseA) (pubs : List Table) (i : Nat) :
+    (getUsedAll u pubs)[i]? = (pubs[i]?).map (getUsed u) := by
+  simp [getUsedAll]
+
+/-- every table of the returned tuple holds, under a local name the statement admits, an entry of
+    the export table *at the same position* - whatever the other export tables contain -/
+theorem getUsedAll_complete (u : UseA) (pubs : List Table) (r l : Str) (ha : AdmitsCode u r l)
+    (i : Nat) (pub : Table) (e : Ent) (hi : pubs[i]? = some pub) (hm : (r, e) ∈ pub) :
+    ∃ t, (getUsedAll u pubs)[i]? = some t ∧ hasKey t l := by
+  refine ⟨getUsed u pub, ?_, hasKey_getUsed u pub r l e hm ha⟩
+  rw [getUsedAll_get, hi]; rfl
+
+theorem getUsedAll_sound (u : UseA) (pubs : List Table) (i : Nat) (t : Table)
+    (ht : (getUsedAll u pubs)[i]? = some t) (p : Str × Ent) (hp : p ∈ t) :
+    ∃ pub, pubs[i]? = some pub ∧ ∃ r, (r, p.2) ∈ pub ∧ AdmitsCode u r p.1 := by
+  rw [getUsedAll_get] at ht
+  cases hpi : pubs[i]? with
+  | none => simp [hpi] at ht
+  | some pub =>
+    simp [hpi] at ht
+    subst ht
+    exact ⟨pub, rfl, mem_getUsed u pub p hp⟩
+
 end Ford.Use
